@@ -2,6 +2,8 @@ use crate::cookie::{AUTH_COOKIE_KEY, AuthCookie, SESSION_COOKIE_KEY, SessionCook
 use crate::crypto::stream::{Aes128Cfb8Dec, Aes128Cfb8Enc, CipherStream, create_ciphers};
 pub(crate) use crate::error::Error;
 use crate::{crypto, metrics};
+use aes::cipher::BlockDecryptMut;
+use aes::cipher::generic_array::GenericArray;
 use opentelemetry::trace::TraceContextExt;
 use passage_adapters::authentication::AuthenticationAdapter;
 use passage_adapters::filter::FilterAdapter;
@@ -70,6 +72,10 @@ pub const KEEP_ALIVE_INTERVAL: u64 = 16;
 pub struct Connection<S, Stat, Disc, Filt, Stra, Auth, Loca> {
     stream: CipherStream<S, Aes128Cfb8Enc, Aes128Cfb8Dec>,
     buffer: Vec<u8>,
+    // received bytes that were not yet consumed as a complete packet (survives cancelled reads)
+    read_buffer: Vec<u8>,
+    // encoded packets that were not yet fully written to the stream (survives cancelled writes)
+    write_buffer: Vec<u8>,
 
     // adapters
     status_adapter: Arc<Stat>,
@@ -119,6 +125,8 @@ where
         Self {
             stream: CipherStream::from_stream(stream),
             buffer: Vec::with_capacity(INITIAL_BUFFER_SIZE),
+            read_buffer: Vec::with_capacity(INITIAL_BUFFER_SIZE),
+            write_buffer: Vec::with_capacity(INITIAL_BUFFER_SIZE),
             // adapters
             status_adapter,
             discovery_adapter,
@@ -163,8 +171,13 @@ where
         &mut self,
         keep_alive: bool,
     ) -> Result<(VarInt, Cursor<Vec<u8>>), Error> {
-        // wait for the next packet, send keep-alive packets as necessary
-        let length = loop {
+        // wait for the next packet, send keep-alive packets as necessary. Received bytes are only
+        // consumed once the packet is complete, such that this future may be dropped at any point.
+        let (length, prefix_len) = loop {
+            // the length may already be buffered
+            if let Some(parsed) = Self::peek_varint(&self.read_buffer) {
+                break parsed;
+            }
             tokio::select! {
                 // use biased selection such that branches are checked in order
                 biased;
@@ -187,9 +200,11 @@ where
                     let packet = conf_out::KeepAlivePacket { id };
                     self.send_packet(packet).await?;
                 },
-                // await the next packet in, reading the packet size (expect fast execution)
-                maybe_length = self.stream.read_varint().instrument(tracing::info_span!("read_packet_length", otel.kind = "server")) => {
-                    break maybe_length?;
+                // await the next bytes in, reading the packet size (expect fast execution)
+                maybe_read = self.stream.read_buf(&mut self.read_buffer).instrument(tracing::info_span!("read_packet_length", otel.kind = "server")) => {
+                    if maybe_read? == 0 {
+                        return Err(std::io::Error::from(std::io::ErrorKind::UnexpectedEof).into());
+                    }
                 },
             }
         };
@@ -208,27 +223,46 @@ where
         metrics::packet_size::record_serverbound(packet_size);
         tracing::Span::current().record("packet_length", packet_size);
 
-        // extract the encoded packet id
-        let id = self
-            .stream
-            .read_varint()
-            .instrument(tracing::info_span!("read_packet_id", otel.kind = "server"))
-            .await?;
+        // wait for the remaining packet bytes
+        let packet_len = prefix_len + length as usize;
+        while self.read_buffer.len() < packet_len {
+            let read = self
+                .stream
+                .read_buf(&mut self.read_buffer)
+                .instrument(tracing::info_span!(
+                    "read_packet_bytes",
+                    otel.kind = "server"
+                ))
+                .await?;
+            if read == 0 {
+                return Err(std::io::Error::from(std::io::ErrorKind::UnexpectedEof).into());
+            }
+        }
+
+        // take the packet from the buffer and extract the encoded packet id
+        let packet: Vec<u8> = self.read_buffer.drain(..packet_len).skip(prefix_len).collect();
+        let mut packet = Cursor::new(packet);
+        let id = packet.read_varint().await?;
         tracing::Span::current().record("packet_id", id);
 
-        // split a separate reader from the stream and read packet bytes (advancing stream)
-        let mut buffer = vec![];
-        (&mut self.stream)
-            .take(length as u64 - 1)
-            .read_to_end(&mut buffer)
-            .instrument(tracing::info_span!(
-                "read_packet_bytes",
-                otel.kind = "server"
-            ))
-            .await?;
-        let buf = Cursor::new(buffer);
+        // the remaining bytes are the packet content
+        let position = packet.position() as usize;
+        let buf = Cursor::new(packet.into_inner().split_off(position));
 
         Ok((id, buf))
+    }
+
+    /// Decodes a varint from the start of the buffer without consuming it. Returns the value and
+    /// its encoded length, or none if the buffer does not hold the complete varint yet.
+    fn peek_varint(buffer: &[u8]) -> Option<(VarInt, usize)> {
+        let mut ans = 0;
+        for (i, byte) in buffer.iter().take(5).enumerate() {
+            ans |= (i32::from(byte & 0b0111_1111)) << (7 * i);
+            if byte & 0b1000_0000 == 0 || i == 4 {
+                return Some((ans, i + 1));
+            }
+        }
+        None
     }
 
     #[instrument(skip_all)]
@@ -248,11 +282,20 @@ where
         final_buffer.write_varint(packet_len as VarInt).await?;
         final_buffer.extend_from_slice(&self.buffer);
 
-        // send the final buffer into the stream
-        self.stream
-            .write_all(&final_buffer)
-            .instrument(tracing::info_span!("write_packet", otel.kind = "server"))
-            .await?;
+        // queue the final buffer and send everything queued into the stream. A previous send may
+        // have been dropped halfway, its remaining bytes have to be written first.
+        self.write_buffer.extend_from_slice(&final_buffer);
+        while !self.write_buffer.is_empty() {
+            let written = self
+                .stream
+                .write(&self.write_buffer)
+                .instrument(tracing::info_span!("write_packet", otel.kind = "server"))
+                .await?;
+            if written == 0 {
+                return Err(std::io::Error::from(std::io::ErrorKind::WriteZero).into());
+            }
+            self.write_buffer.drain(..written);
+        }
 
         // track metrics
         let packet_size = u64::try_from(final_buffer.len()).expect("usize always fits into u64");
@@ -293,7 +336,12 @@ where
         debug!("enabling encryption");
 
         // get stream ciphers and wrap stream with cipher
-        let (encryptor, decryptor) = create_ciphers(shared_secret)?;
+        let (encryptor, mut decryptor) = create_ciphers(shared_secret)?;
+
+        // bytes that were received ahead of the switch are already encrypted
+        for byte in self.read_buffer.chunks_mut(1) {
+            decryptor.decrypt_block_mut(GenericArray::from_mut_slice(byte));
+        }
         self.stream.set_encryption(Some(encryptor), Some(decryptor));
 
         Ok(())
